@@ -122,13 +122,12 @@ def jCell : Cell → Json
 def jPy (s : PySymbol) : Json :=
   Json.arr #[jCell s.name, Json.str ("t:" ++ toString s.type), jCell s.lags, jCell s.leads, jCell s.equation, jCell s.code]
 
-/-- kind `tools_symbols`: `{symbols: [[name, type, lags, leads, equation, code]…], decoder: "code" | "fixed"}` →
+/-- kind `tools_symbols`: `{symbols: [[name, type, lags, leads, equation, code]…]}` →
     `{"table": rows as read back from the DataFrame, "decoded": rows | "raises"}` under the installed coercion. -/
 def handleSymbols (j : Json) : R String := do
   let ss ← (← arr j "symbols").toList.mapM parseSymbol
-  let dec := if (← str j "decoder") == "fixed" then fixedDecoder else codeDecoder
   let tbl := symbolsToTable installed ss
-  let decoded := match tableToSymbols dec tbl with
+  let decoded := match tableToSymbols codeDecoder tbl with
     | some out => Json.arr (out.map jPy).toArray
     | none => Json.str "raises"
   pure (Json.mkObj [("table", Json.arr (tbl.map jPy).toArray), ("decoded", decoded)]).compress
